@@ -70,7 +70,7 @@ Definition judge_font (upem : Z) (subset : bool) (ids ws us : list Z) (f : fobj)
               + bit (fEmbed f =? 2) 256
               + bit (negb (Nat.eqb (length (fW f)) (length (flat_map (fun it => match it with WA _ => [it] | _ => [] end) (fW f)) * 2))) 32 in
   (bit tieW 2 + bit tieC 4 + bit tieG 16,
-   bit propW 1 + bit propC 2 + bit propE 32 + bit lenC 256 + bit (negb (fIdent f)) 16,
+   bit propW 1 + bit propC 2 + bit propE 32 + bit lenC 256 + bit (negb (fIdent f)) 16 + bit (fEmbed f =? 3) 1024,
    info).
 
 Definition judge_text (upem : Z) (s : sub) (ids : list Z) (fonts : list fobj) (t : tobj) : Z * Z * Z :=
